@@ -719,7 +719,18 @@ func (r *FnRun) evalCall(x SCall, env *specEnv) Val {
 		r.declareFun("dtype", []Sort{SInt}, SInt)
 		name := x.Args[1].(SStrL).Val
 		code := r.e.typeCodeByName(name, env.pkg)
-		return Eq(App("dtype", SInt, r.argTerm(r.evalSpec(x.Args[0], env), env)), IntLit(int64(code)))
+		tv := r.evalSpec(x.Args[0], env)
+		if iv, ok := tv.(IfaceVal); ok {
+			if iv.Dyn != nil {
+				// the dynamic type is known on this path
+				if r.e.typeCode(iv.Dyn) == code {
+					return TTrue
+				}
+				return TFalse
+			}
+			return Eq(App("dtype", SInt, iv.T), IntLit(int64(code)))
+		}
+		return Eq(App("dtype", SInt, r.argTerm(tv, env)), IntLit(int64(code)))
 	case "fresh":
 		t := r.argTerm(r.evalSpec(x.Args[0], env), env)
 		top := env.oldTop
